@@ -190,6 +190,9 @@ pub fn eval(c: &Case, obs: &mut Obs) -> Result<(), String> {
         obs.inconclusive(format!("a transcript server reported {:?}", answers.iter().map(|(n, t)| (n, t.lines().next().unwrap_or(""))).collect::<Vec<_>>()));
         return Ok(());
     }
+    // which signal killed the child is not an outcome category of the statement
+    // (a crash is C01/C09's business and is the same outcome in every build)
+    let answers: Vec<(&'static str, String)> = answers.into_iter().map(|(n, t)| (n, if t.starts_with("CRASH") { "CRASH\n".to_string() } else { t })).collect();
     let (n0, t0) = &answers[0];
     for (n, t) in &answers[1..] {
         if t != t0 {
